@@ -55,6 +55,7 @@ XEvent(r) ==
     \/ /\ r.ev = "ordcmp" /\ Cp!OrdOK(r) /\ UNCHANGED <<gaVars, xVars>>
     \/ /\ r.ev = "dbg" /\ Cp!DbgOK(r) /\ UNCHANGED <<gaVars, xVars>>
     \/ /\ r.ev = "macro" /\ MacroOK(r) /\ UNCHANGED <<gaVars, xVars>>
+    \/ /\ r.ev = "macro_zst" /\ MacroZstOK(r) /\ UNCHANGED <<gaVars, xVars>>
     \/ /\ r.ev = "constrt" /\ ConstRtOK(r) /\ UNCHANGED <<gaVars, xVars>>
     \/ /\ r.ev = "big" /\ BigOK(r) /\ UNCHANGED <<gaVars, xVars>>
     \/ /\ r.ev = "big_done" /\ r.ok /\ UNCHANGED <<gaVars, xVars>>
